@@ -10,7 +10,8 @@ Bools == {TRUE, FALSE}
 Cmds ==
     (IF "parse" \in OpsUsed THEN {[op |-> "parse", text |-> t, strict |-> s, inst |-> i] : t \in Texts, s \in Bools, i \in Insts} ELSE {})
     \cup {[op |-> o, inst |-> i] : o \in OpsUsed \cap {"validate", "analyse", "assignIds"}, i \in Insts}
-    \cup (IF "generate" \in OpsUsed THEN {[op |-> "generate", profile |-> p] : p \in {"c", "py"}} ELSE {})
+    \cup (IF "generate" \in OpsUsed THEN {[op |-> "generate", profile |-> p, inst |-> i] : p \in {"c", "py"}, i \in Insts} ELSE {})
+    \cup (IF "edit" \in OpsUsed THEN {[op |-> "edit"]} ELSE {})
     \cup (IF "print" \in OpsUsed THEN {[op |-> "print", auto |-> a, inst |-> i] : a \in Bools, i \in Insts} ELSE {})
     \cup {[op |-> o, strict |-> s, inst |-> i] : o \in OpsUsed \cap {"resolve", "flatten"}, s \in Bools, i \in Insts}
     \cup (IF "lookup" \in OpsUsed THEN {[op |-> "lookup", id |-> d, inst |-> i] : d \in {"nosuchid", "r1"}, i \in Insts} ELSE {})
@@ -19,4 +20,15 @@ Init == hist = <<>>
 Next == Len(hist) < MaxLen /\ \E c \in Cmds : hist' = Append(hist, c)
 Spec == Init /\ [][Next]_hist
 Emit == Len(hist) = MaxLen => EmitScenario([cmds |-> hist])
+\* hand-picked longer histories around one service (too long for the exhaustive enumeration)
+PS(t) == [op |-> "parse", text |-> t, strict |-> TRUE, inst |-> "fresh"]
+An(i) == [op |-> "analyse", inst |-> i]
+Ge(p, i) == [op |-> "generate", profile |-> p, inst |-> i]
+Ed == [op |-> "edit"]
+\* a Generator that outlives a re-analysis of the (edited) model it generated code for, against a fresh one
+GeneratorHistories == UNION {{<<PS("ode"), An(a), Ge(p, "reused"), Ed, An(a), Ge(p, "reused")>>, <<PS("ode"), An(a), Ge(p, "reused"), Ed, An(a), Ge(q, "reused"), Ge(p, "reused")>>,
+                              <<PS("ode"), Ed, An(a), Ge(p, "fresh")>>, <<PS("ode"), Ed, An(a), Ge(p, "reused")>>, <<PS("ode"), An(a), Ge(p, "reused"), PS("ode2"), An(a), Ge(p, "reused")>>,
+                              <<PS("ode2"), An(a), Ge(p, "fresh")>>}
+                             : a \in {"fresh", "reused"}, p \in {"c", "py"}, q \in {"c", "py"}}
+EmitExplicit == hist = <<>> => \A h \in GeneratorHistories : EmitScenario([cmds |-> h])
 =============================================================================
